@@ -245,6 +245,7 @@ class Simulation:
         self.ino_state: dict = {}
         self.step_capped = False
         self.unlink_faulted: set = set()
+        self.entropy_counter = 0
         self.vtime = 0.0  # simulated seconds: the only clock code under test can read through `time`
         self.sleeps = 0
 
@@ -262,9 +263,14 @@ class Simulation:
         if not self.actors:
             return
         _ACTIVE_SIMS.append(self)
+        import random as _random
+
+        rstate = _random.getstate()
+        _random.seed(0xC0FFEE)  # the module-level PRNG is part of the run's state too
         try:
             self._run()
         finally:
+            _random.setstate(rstate)
             _ACTIVE_SIMS.remove(self)
         if FOREIGN_BYPASS:
             got = list(FOREIGN_BYPASS)
@@ -615,7 +621,11 @@ class Simulation:
                 if a.dead:
                     raise SimKilled()
                 if self.record_unscoped:
-                    self.unscoped.append((a.id, name, path, path2))
+                    nm = name
+                    if name == "open":
+                        fl = args[1] if len(args) > 1 else kw.get("flags", 0)
+                        nm = "open:" + ("w" if fl & (os.O_WRONLY | os.O_RDWR | os.O_CREAT | os.O_TRUNC) else "r")
+                    self.unscoped.append((a.id, nm, path, path2))
                 return fn(*args, **kw)
             if name == "open":
                 flags = args[1] if len(args) > 1 else kw.get("flags", 0)
@@ -637,7 +647,7 @@ class Simulation:
             # cross-validation mode (real child process): die for real, right here, before performing the operation
             import signal
 
-            os.kill(os.getpid(), signal.SIGKILL)
+            os.kill(_real["getpid"](), signal.SIGKILL)
         if kind in CRASH_KINDS:
             if kind == "interrupt":
                 op.outcome = "interrupt"
@@ -899,7 +909,7 @@ class Simulation:
         if kind == "realkill":
             import signal
 
-            os.kill(os.getpid(), signal.SIGKILL)
+            os.kill(_real["getpid"](), signal.SIGKILL)
         if self.before_op is not None:
             with passthrough():
                 self.before_op(self, a, op, kind)
@@ -1343,6 +1353,33 @@ def _sim_flock(fd, operation):
     return a.sim.flock(a, fd, operation)
 
 
+def _make_entropy_wrappers():
+    """os.urandom (hence secrets, uuid4, SystemRandom) and os.getpid are deterministic inside actor threads: names derived from
+    them must be the same in a replay and in the real-SIGKILL cross-validation child."""
+    import hashlib
+
+    _real["urandom"], _real["getpid"] = os.urandom, os.getpid
+
+    def urandom(n):
+        a = current_actor()
+        if a is None:
+            return _real["urandom"](n)
+        sim = a.sim
+        out = b""
+        while len(out) < n:
+            sim.entropy_counter += 1
+            out += hashlib.sha256(f"{a.id}:{sim.entropy_counter}".encode()).digest()
+        return out[:n]
+
+    def getpid():
+        a = current_actor()
+        if a is None:
+            return _real["getpid"]()
+        return 40000 + a.id
+
+    os.urandom, os.getpid = urandom, getpid
+
+
 def _make_time_wrappers():
     import time as _time
 
@@ -1382,6 +1419,7 @@ def install():
     if _installed:
         return
     _make_time_wrappers()
+    _make_entropy_wrappers()
     for n in _OS_NAMES:
         _real[n] = getattr(os, n)
     _real["io.open"] = io.open
@@ -1418,6 +1456,7 @@ def uninstall():
 
     _time.sleep, _time.monotonic, _time.time, _time.perf_counter = (
         _real["time.sleep"], _real["time.monotonic"], _real["time.time"], _real["time.perf_counter"])
+    os.urandom, os.getpid = _real["urandom"], _real["getpid"]
     try:
         import fcntl
         fcntl.flock = _real["flock"]
